@@ -1,28 +1,62 @@
-"""tools/run_seeds.py [Cxx ...]: apply every stored seeded change to /repo, run the property's quick check, undo, and
-record the outcome in seeded/<id>/result.json (caught = exit 1 with a VIOLATION line)."""
+"""tools/run_seeds.py [--harmless] [-j N] [Cxx ...]: apply every stored change (seeded/<id>/patch.diff, or harmless/<id>/patch.diff
+with --harmless) to a scratch worktree of /repo HEAD, run the property's quick check against it (VERIF_REPO), and record the
+outcome in <dir>/result.json.  Seeds: caught = exit 1 with a VIOLATION line.  Harmless edits: ok = exit 0.
+(The brief's protocol -- apply to /repo, run, `git checkout -- .` -- gives the same verdicts; the worktree keeps /repo untouched so
+other checks can run meanwhile.)"""
 import glob, json, os, subprocess, sys
+from concurrent.futures import ThreadPoolExecutor
 os.chdir(os.path.dirname(os.path.dirname(os.path.abspath(__file__))))
-props = sys.argv[1:]
-rows = []
-for d in sorted(glob.glob("seeded/C*_*")):
+args = sys.argv[1:]
+harmless = "--harmless" in args
+args = [a for a in args if a != "--harmless"]
+jobs = 4
+if "-j" in args:
+    i = args.index("-j"); jobs = int(args[i + 1]); del args[i:i + 2]
+props = args
+root = "harmless" if harmless else "seeded"
+items = []
+for d in sorted(glob.glob(f"{root}/C*_*")):
     sid = os.path.basename(d)
     prop = sid.split("_")[0]
     if props and prop not in props:
         continue
-    if not os.path.exists(f"{d}/patch.diff") or not os.path.exists(f"contracts/{prop}.py"):
+    if not sid.split("_")[1].isdigit() or not os.path.exists(f"{d}/patch.diff") or not os.path.exists(f"contracts/{prop}.py"):
         continue
-    subprocess.run(["git", "-C", "/repo", "checkout", "--", "."], check=True)
-    a = subprocess.run(["git", "-C", "/repo", "apply", os.path.abspath(f"{d}/patch.diff")], capture_output=True, text=True)
-    if a.returncode != 0:
-        rows.append((sid, "patch-does-not-apply", []))
-        continue
+    items.append((d, sid, prop))
+wts = []
+for k in range(min(jobs, max(1, len(items)))):
+    wt = f"/tmp/seedwt_{os.getpid()}_{k}"
+    subprocess.run(["git", "-C", "/repo", "worktree", "add", "-q", "--detach", wt, "HEAD"], check=True)
+    wts.append(wt)
+free = list(wts)
+
+def one(it):
+    d, sid, prop = it
+    wt = free.pop()
     try:
-        p = subprocess.run(["./check", prop], capture_output=True, text=True, timeout=1800)
+        subprocess.run(["git", "-C", wt, "checkout", "--", "."], check=True)
+        subprocess.run(["git", "-C", wt, "clean", "-fdq"], check=True)
+        a = subprocess.run(["git", "-C", wt, "apply", os.path.abspath(f"{d}/patch.diff")], capture_output=True, text=True)
+        if a.returncode != 0:
+            return (sid, "patch-does-not-apply", [], [])
+        p = subprocess.run(["./check", prop], capture_output=True, text=True, timeout=2400,
+                           env=dict(os.environ, VERIF_REPO=wt, PYVC_NO_EVIDENCE="1", PYVC_JOBS=str(max(4, 16 // jobs))))
         vio = [l.split("obligation=")[1].split()[0] for l in p.stdout.splitlines() if l.startswith("VIOLATION") and "obligation=" in l]
         und = [l for l in p.stdout.splitlines() if l.startswith(("UNDECIDED", "ENGINE-ERROR", "MISSING"))]
-        status = "caught" if p.returncode == 1 and vio else f"missed(exit={p.returncode})"
+        if harmless:
+            status = "ok" if p.returncode == 0 else f"false-alarm(exit={p.returncode})"
+        else:
+            status = "caught" if p.returncode == 1 and vio else f"missed(exit={p.returncode})"
+        key = "edit" if harmless else "seed"
+        json.dump({key: sid, "property": prop, "status": status, "violated_obligations": vio, "other_lines": und[:5]}, open(f"{d}/result.json", "w"), indent=1)
+        return (sid, status, vio[:2], und[:1])
     finally:
-        subprocess.run(["git", "-C", "/repo", "checkout", "--", "."], check=True)
-    json.dump({"seed": sid, "property": prop, "status": status, "violated_obligations": vio, "other_lines": und[:5]}, open(f"{d}/result.json", "w"), indent=1)
-    rows.append((sid, status, vio[:2]))
-    print(sid, status, vio[:2], und[:1], flush=True)
+        free.append(wt)
+
+try:
+    with ThreadPoolExecutor(len(wts)) as ex:
+        for r in ex.map(one, items):
+            print(r[0], r[1], r[2], [u[:220] for u in r[3]], flush=True)
+finally:
+    for wt in wts:
+        subprocess.run(["git", "-C", "/repo", "worktree", "remove", "--force", wt])
